@@ -53,6 +53,10 @@ func runC08(r *engine.Run) {
 	r.Rule("LOCK-reentrant", "see C16: no Lock or RLock of a mutex is reachable while the same goroutine already holds that mutex of the same object: held-on-receiver facts (must-lockset inside a function) are carried into callees only along calls made on the same receiver value, over every call chain; sync mutexes are not reentrant (a second RLock deadlocks as soon as a writer queues up between the two)")
 	r.Rule("ORDER-txsection", "TransactionCache.Commit hands the pending writes over and empties the pending map in one critical section: no release of the transaction cache's mutex lies on a path from a hand-over call to the emptying, and the emptying happens under the write lock (a writer admitted in a gap would write into the map that is about to be discarded)")
 	r.Rule("PAIR-unlock", "every Lock/RLock of a mutex is followed on every path to a return of the acquiring function by the matching Unlock/RUnlock on the same mutex or by a deferred one registered on the path: no operation returns with the lock held (every later operation on the object would block)")
+	r.Rule("DOM-writekept", "see C06: a write or removal is recorded in the layer's pending map on every path")
+	r.Rule("WHO-readonly", "see C06: lookups never store into a pending map")
+	r.Rule("CLONE-boundary", "see C07: values crossing a cache boundary are Clone() results")
+	r.Rule("FRESH-write", "see C06: a write stores a fresh Clone(), never the old entry refreshed in place")
 	r.NotDec = append(r.NotDec, "that every interleaving of the lock-free StateCache.Get with a commit yields the block-tree-determined value (needs exploration of interleavings)")
 	const rule = "LOCK-statecache"
 	entries := exportedEntries(r, rule, pkgSC, scOwners)
@@ -96,6 +100,10 @@ func runC08(r *engine.Run) {
 	pairUnlock(r, "PAIR-unlock", funcsOfPkg(r, pkgSC), 4)
 	orderTxSection(r, "ORDER-txsection")
 	lockReentrant(r, "LOCK-reentrant", funcsOfPkg(r, pkgSC), 8)
+	domWriteKept(r, "DOM-writekept")
+	whoReadOnly(r, "WHO-readonly")
+	cloneBoundary(r, "C08")
+	freshWrite(r, "FRESH-write")
 }
 
 func orderPublish(r *engine.Run, commit *ssa.Function) {
@@ -268,4 +276,40 @@ func orderTxSection(r *engine.Run, rule string) {
 	}
 	r.Check(gap == "" && heldW, rule, fn(f)+"|one critical section", r.P.Pos(f.Pos()), "the mutex is held for writing at the emptying and is not released between the hand-over and the emptying",
 		fmt.Sprintf("the transaction cache's mutex is released between the hand-over to the block cache and the emptying of the pending map (release at %s; write lock at the emptying: %v): a Set or Remove that acquires the lock in the gap writes into the map that is about to be discarded - the call returns, but the write is neither in the block nor pending", gap, heldW))
+}
+
+// lockCommitOnly: LOCK-commit for the properties that rely on it without
+// running the whole lock discipline of C08: every LRU write reachable from
+// StateCache.commit happens under StateCache.lock held for writing.
+func lockCommitOnly(r *engine.Run, rule string) {
+	commit := r.Fn(rule, pkgSC, "StateCache", "commit")
+	if commit == nil {
+		return
+	}
+	g := r.P.RepoCG()
+	w := engine.NewLockWorld(g, []*ssa.Function{commit})
+	n := 0
+	for f := range g.Reach(commit) {
+		if recvNamed(engine.TopFunc(f)) != "StateCache" {
+			continue
+		}
+		o := ord{}
+		engine.Instrs(f, func(in ssa.Instruction) {
+			c, ok := in.(*ssa.Call)
+			if !ok {
+				return
+			}
+			for _, m := range []string{"Add", "Remove", "ContainsOrAdd", "PeekOrAdd", "Purge"} {
+				if extCalleeIs(c, "hashicorp/golang-lru", "Cache", m) {
+					held := w.HeldAt(in)
+					n++
+					r.Check(held["StateCache.lock"] == engine.ModeW, rule, o.next(fn(f)+"|lru."+m), r.P.Pos(in.Pos()),
+						"write under StateCache.lock; held "+held.String(), "a commit-path write into the state cache's maps happens without StateCache.lock: two committers create the per-key versions map side by side and one replaces the other's, so a committed write vanishes for that block and its descendants; held "+held.String())
+				}
+			}
+		})
+	}
+	if n == 0 {
+		r.Anchor(rule, fmt.Errorf("unresolved anchor: no LRU write reachable from commit"))
+	}
 }
